@@ -473,7 +473,13 @@ func checkMain(args []string) int {
 			}
 			confirmed := false
 			detail := ""
-			if replayClass == "N" && !noReplay {
+			if noReplay {
+				fmt.Printf("CANDIDATE %s: %s [%s] observed=%v model=%v\n", r.Harness, v.Msg, v.Kind, v.Observed, v.Model)
+				exit = 1
+				reported++
+				continue
+			}
+			if replayClass == "N" {
 				ro, err := rp.run(j.Pkg, j.Fn, j.Params, v.Model)
 				if err != nil {
 					inconclusive = append(inconclusive, r.Harness+": "+err.Error())
